@@ -152,6 +152,10 @@ def job_specs(draw, max_tasks: int = 14, min_tasks: int = 0, max_outs: int = 4, 
                 outs = draw(st.permutations((["m.upper", "m.lower", "a.b.c", "d"] if odd_names else ["upper", "lower", "mid", "aux"])[:nouts]))  # declared in any order; yields follow key order
             elif style == 1:
                 outs = list(draw(st.permutations(outs)))  # numeric names, declared shuffled
+            elif style == 2 and nouts <= 3:
+                # numeric names that denote the same number ("1", "01", "001"): equal rank in the numeric order, the declared
+                # order decides
+                outs = list(draw(st.permutations(["1", "01", "001"][:nouts])))
         nargs = draw(st.sampled_from([0, 1, 1, 2, 2, 3, 3, 11, 12]))  # > 10 positions: "10" sorts before "2" as a string
         nkw = draw(st.integers(0, 2))
 
@@ -199,7 +203,7 @@ def job_specs(draw, max_tasks: int = 14, min_tasks: int = 0, max_outs: int = 4, 
     if cands and len(tasks) < max_tasks + 1 and draw(st.booleans()):
         i = draw(st.sampled_from(cands))
         t = tasks[i]
-        tasks.append({"name": tname(n) if odd_names else (task_name(n) if padded else f"t{n}"), "outs": list(t["outs"]), "gpu": t["gpu"],
+        tasks.append({"name": tname(n), "outs": list(t["outs"]), "gpu": t["gpu"],
                       "args": [dict(sl) for sl in t["args"]],
                       "kwargs": {k: ({"s": sl["d"]} if "e" in sl else dict(sl)) for k, sl in t["kwargs"].items() if "e" not in sl or "d" in sl},
                       "placeholders": t["placeholders"], "vt": t.get("vt"), "twin_of": i})
